@@ -2,6 +2,13 @@ package storewalk
 
 import (
 	"fmt"
+	"os"
+	"path/filepath"
+	"time"
+
+	"github.com/bitcoin-sv/block-headers-service/config"
+	"github.com/bitcoin-sv/block-headers-service/domains"
+	"github.com/bitcoin-sv/block-headers-service/internal/chaincfg"
 
 	"github.com/bitcoin-sv/block-headers-service/internal/chaincfg/chainhash"
 	"github.com/bitcoin-sv/block-headers-service/internal/wire"
@@ -410,6 +417,69 @@ func (o *c13) Finish() {
 			}
 		}
 		o.rep.Samples = append(o.rep.Samples, map[string]any{"long_store": ls.name, "tip": tip, "locator_starts": len(hs)})
+		rig.Close()
+	}
+	if env.Mine(3) {
+		o.otherNetworks()
+	}
+}
+
+// otherNetworks: the same questions on a service configured for another network (its own genesis
+// block, written by database.Init): a linear chain of 30 headers, locators at a few heights, stops
+// zero / ahead / at the start / the network's genesis / the main network's genesis (unknown here).
+func (o *c13) otherNetworks() {
+	for _, net := range []config.NetworkType{config.RegTestNet, config.TestNet} {
+		path := filepath.Join(core.Scratch(), "net-"+string(net)+".db")
+		_ = os.Remove(path)
+		rig := core.OpenRig(path, core.RigOpts{ReInit: true, Cfg: func(c *config.AppConfig) { c.P2P.ChainNetType = net }})
+		params := rig.Cfg.P2P.GetNetParams()
+		gen := params.GenesisBlock.Header
+		chain := []wire.BlockHeader{gen}
+		okBuild := true
+		for i := 1; i <= 30; i++ {
+			var m chainhash.Hash
+			m[0], m[1] = byte(i), 0x77
+			h := wire.BlockHeader{Version: 1, PrevBlock: chain[i-1].BlockHash(), MerkleRoot: m, Timestamp: time.Unix(int64(1600000000+i), 0), Bits: core.BitsLight, Nonce: uint32(i)}
+			if res := core.SafeAdd(rig.Svc.Chains, domains.BlockHeaderSource(h)); res.Code() != "stored" {
+				o.viol(nil, "othernet.add", fmt.Sprintf("%s: Add of header %d on top of the network's genesis answered %s", net, i, res.Code()), "stored", res.Code())
+				okBuild = false
+				break
+			}
+			chain = append(chain, h)
+		}
+		if okBuild {
+			hashAt := func(i int) *chainhash.Hash { h := chain[i].BlockHash(); return &h }
+			mainGen := *chaincfg.MainNetParams.GenesisHash
+			zero := chainhash.Hash{}
+			for _, start := range []int{0, 1, 10, 29, 30} {
+				stops := map[string]*chainhash.Hash{"zero": &zero, "own genesis": hashAt(0), "main network's genesis (unknown here)": &mainGen, "at start": hashAt(start)}
+				if start+5 <= 30 {
+					stops["ahead"] = hashAt(start + 5)
+				}
+				for name, st := range stops {
+					want := 30 - start
+					switch name {
+					case "own genesis", "at start":
+						want = 0
+					case "ahead":
+						want = 5
+					}
+					got, err := rig.Svc.Headers.LocateHeadersGetHeaders([]*chainhash.Hash{hashAt(start)}, st)
+					o.rep.Evaluations++
+					o.rep.Executions++
+					o.rep.DistinctNontrivial++
+					ok := len(got) == want && (err == nil || want == 0)
+					for i := 0; ok && i < len(got); i++ {
+						ok = got[i].BlockHash() == chain[start+1+i].BlockHash()
+					}
+					if !ok {
+						o.viol(nil, "othernet.getheaders", fmt.Sprintf("network %s: getheaders(locator=[height %d], stop=%s)", net, start, name), fmt.Sprintf("%d headers from height %d", want, start+1), fmt.Sprintf("%d headers, err=%v", len(got), err))
+					}
+				}
+			}
+			o.rep.States++
+			o.rep.Outcome("other-network:" + string(net))
+		}
 		rig.Close()
 	}
 }
